@@ -10,6 +10,7 @@ package bucketteer
 
 //@ func prefixToUint16
 //@   mode bv
+//@   pure
 //@   ensures result == uint16(prefix[0]) + uint16(prefix[1])*256
 
 //@ func uint16ToPrefix
@@ -282,6 +283,9 @@ package bucketteer
 //@   ensures result3 == nil ==> result0 != nil && result1 != nil && fresh(result0) && fresh(result1)
 //@   ensures result3 == nil ==> 4 <= result2 && result2 <= 4294967299 && result2 <= fsize(reader)
 //@   ensures result3 == nil ==> forall j int :: 0 <= j && j < 4 ==> byte((result2 - 4) >> (8*uint(j))) == fbyte(reader, j)
+//@   # C05: EVERY (prefix, offset) pair decoded from the header table is stored under its prefix (no pair is skipped or
+//@   # filtered: offset 0 is the legitimate position of the first bucket of the content area)
+//@   loop 0 step prefixToOffset[prefixToUint16(prefix)] == offset
 //@   noframe
 
 // NewReader: the content reader is the file from the end of the header on: content byte k is file byte headerTotalSize + k.
